@@ -8,11 +8,11 @@
    ONE Junk entry per region, covering exactly that region. *)
 From Coq Require Import NArith List Bool Arith Lia.
 From CL Require Import Base.Sx Base.Res Base.Str Regex.Rx Regex.RxLemmas Model.Entry Model.Parse
-  Model.ParseFormats Generated.RxParser Proofs.UnescapeProofs
+  Model.ParseFormats Generated.RxParser Model.Unescape Proofs.UnescapeProofs
   Proofs.ClassLoop Proofs.ClassLoop2 Proofs.C02Props Proofs.WalkProofs Proofs.C02Roundtrip
   Proofs.C02BlocksRx Proofs.C02BlocksIniRx Proofs.C02BlocksIncRx Proofs.C02Po Proofs.ParseContracts
   Proofs.C02BlocksPoRx Proofs.C02BlocksPo.
-From CL Require Proofs.C02BlocksIniJunk Proofs.C02BlocksDtdJunk.
+From CL Require Proofs.C02BlocksIniJunk Proofs.C02BlocksDtdJunk Proofs.C02BlocksPoVal.
 Import ListNotations.
 
 Local Arguments Nat.ltb : simpl never.
@@ -191,3 +191,420 @@ Proof.
     apply C02BlocksIniJunk.get_junk_hit; [unfold p; lia|exact HB|]. apply Exists_cons_hd.
     eapply Hit; [unfold z; exact Hx1|exact Hx2|exact Ok].
 Qed.
+
+(* ---- blocks with garbage regions -------------------------------------------------------------------------- *)
+Inductive pjblock :=
+| PJB (b : pblock)
+| PJG (g : str).
+
+Definition pjtext (jb : pjblock) : str := match jb with PJB b => ptext b | PJG g => g end.
+Definition pjfile_text (bs : list pjblock) : str := concat (map pjtext bs).
+Definition legal_pjblockb (jb : pjblock) : bool :=
+  match jb with PJB b => legal_pblockb b | PJG g => legal_pgarbage g end.
+Definition legal_pjblock (jb : pjblock) : Prop := legal_pjblockb jb = true.
+
+(* as C02BlocksPo.psep; a garbage region is followed by the end of the file, a comment or a
+   message (whitespace would belong to the junk), and does not directly follow a standalone
+   comment *)
+Fixpoint pjsep (bs : list pjblock) : bool :=
+  match bs with
+  | [] => true
+  | PJB (PComment _) :: rest =>
+      match rest with
+      | [] => true
+      | PJB (PBlank w) :: _ => 2 <=? count_char 10%N w
+      | _ => false
+      end && pjsep rest
+  | PJG _ :: rest =>
+      match rest with
+      | [] | PJB (PComment _) :: _ | PJB (PEntity _ _ _ _ _ _) :: _ => true
+      | _ => false
+      end && pjsep rest
+  | _ :: rest => pjsep rest
+  end.
+
+Fixpoint pjlic (off : nat) (bs : list pjblock) : bool :=
+  match bs with
+  | PJB (PBlank w) :: rest => pjlic (off + length w) rest
+  | PJG g :: rest => pjlic (off + length g) rest
+  | PJB (PEntity cs _ _ _ _ _) :: _ =>
+      (2 <=? off) || negb (contains s_License (ctext cs))
+  | _ => true
+  end.
+
+Definition pjadjacent_okb (bs : list pjblock) : bool := pjsep bs && pjlic 0 bs.
+Definition pjadjacent_ok (bs : list pjblock) : Prop := pjadjacent_okb bs = true.
+
+Fixpoint pjents (off w : nat) (bs : list pjblock) : list entry :=
+  match bs with
+  | [] => flush off w
+  | PJB (PBlank x) :: rest => pjents off (w + length x) rest
+  | PJB (PComment cs) :: rest =>
+      let a := off + w in
+      flush off w ++ mk_comment (a, a + length (ctext cs)) :: pjents (a + length (ctext cs)) 0 rest
+  | PJB (PEntity cs iw ctxt idl w2 strl) :: rest =>
+      let a := off + w in
+      let l := a + length (ctext cs) in
+      let k := l + length iw in
+      let id_end := k + length (ctxt_text ctxt) + 5 + length (items_text idl) in
+      let c3 := id_end + length w2 in
+      let c4 := c3 + 6 + length (items_text strl) in
+      flush off w ++
+      mkentry KEntity (k, c4) (Some (k, id_end)) (Some (c3, c4))
+              (match cs with [] => None | _ => Some (a, l) end)
+              (match iw with [] => None | _ => Some (l, k) end)
+      :: pjents c4 0 rest
+  | PJG g :: rest =>
+      let a := off + w in
+      flush off w ++ mk_junk (a, a + length g) :: pjents (a + length g) 0 rest
+  end.
+Definition pjentries_of (bs : list pjblock) : list entry := pjents 0 0 bs.
+
+(* sanity, by evaluation: message / "junk text" newline / message with comment / newline newline /
+   comment / newline newline / "x = y" newline / message / "tail" *)
+Definition pjx_g : pjblock := PJG (A [106; 117; 110; 107; 32; 116; 101; 120; 116; 10]).
+Example pjx_junk :
+  let bs := [PJB px_e1; pjx_g; PJB px_e2; PJB px_b2; PJB px_c; PJB px_b2; PJG (A [120; 32; 61; 32; 121; 10]);
+             PJB px_e1; PJG (A [116; 97; 105; 108])] in
+  Forall legal_pjblock bs /\ pjadjacent_ok bs /\ walk_po (pjfile_text bs) = Ok (pjentries_of bs) /\
+  length (filter (C02BlocksPoVal.is_kind KJunk) (pjentries_of bs)) = 3.
+Proof. split; [repeat constructor|]. split; [vm_compute; reflexivity|]. split; vm_compute; reflexivity. Qed.
+
+(* ---- the walk with garbage regions ------------------------------------------------------------------------ *)
+Definition pjstmt (bs : list pjblock) (a w : str) : Prop :=
+  pjlic (length a + length w) bs = true ->
+  forall fuel, length (a ++ w ++ pjfile_text bs) - length a < fuel ->
+  walk_loop (stateless gn_po) fuel tt (a ++ w ++ pjfile_text bs) (length a) =
+  Ok (pjents (length a) (length w) bs).
+
+Definition pjnonblank_head (bs : list pjblock) : Prop :=
+  match bs with PJB (PBlank _) :: _ => False | _ => True end.
+
+Lemma pjents_flush : forall bs off w, pjnonblank_head bs ->
+  pjents off w bs = flush off w ++ pjents (off + w) 0 bs.
+Proof.
+  intros [|[[x|cs|cs iw ctxt idl w2 strl]|g] rest] off w H; try contradiction; simpl;
+    rewrite ?Nat.add_0_r, ?app_nil_r; reflexivity.
+Qed.
+
+Lemma pjlic_ge2 : forall bs off, 2 <= off -> pjlic off bs = true.
+Proof.
+  induction bs as [|[[x|cs|cs iw ctxt idl w2 strl]|g] rest IH]; intros off H; try reflexivity.
+  - simpl. apply IH. lia.
+  - simpl. replace (2 <=? off) with true by (symmetry; apply Nat.leb_le; exact H). reflexivity.
+  - simpl. apply IH. lia.
+Qed.
+
+Lemma pjlift_flush : forall bs, pjnonblank_head bs ->
+  head_is (fun c => mem c WS) (pjfile_text bs) = false ->
+  (forall a, pjstmt bs a []) ->
+  forall a w, all_ws w = true -> pjstmt bs a w.
+Proof.
+  intros bs Hnb Hhead H0 a w Hw Hlic fuel Hf.
+  destruct w as [|c w'] eqn:Ew; [apply (H0 a); auto|]. rewrite <- Ew in *.
+  assert (Hne : w <> []) by (rewrite Ew; discriminate).
+  destruct fuel as [|f]; [lia|].
+  rewrite pjents_flush by exact Hnb.
+  assert (Efl : flush (length a) (length w) = [mk_white (length a, length a + length w)])
+    by (rewrite Ew; reflexivity).
+  rewrite Efl. simpl app.
+  pose proof (gn_po_white a w (pjfile_text bs) Hne Hw Hhead) as G.
+  rewrite <- G. apply walk_step_po.
+  - rewrite !app_length. rewrite Ew. simpl. lia.
+  - rewrite G. cbn [mk_white e_span snd].
+    assert (Hs : a ++ w ++ pjfile_text bs = (a ++ w) ++ [] ++ pjfile_text bs)
+      by (rewrite <- app_assoc; reflexivity).
+    rewrite Hs, <- app_length. apply (H0 (a ++ w)).
+    + rewrite app_length. simpl length. rewrite Nat.add_0_r. exact Hlic.
+    + rewrite <- Hs. rewrite !app_length in *. rewrite Ew in *. simpl in *. lia.
+Qed.
+
+Lemma pjfile_text_cons : forall b bs, pjfile_text (b :: bs) = pjtext b ++ pjfile_text bs.
+Proof. reflexivity. Qed.
+
+Lemma garbage_head : forall g Y, legal_pgarbage g = true ->
+  head_is (fun c => mem c (34%N :: WS)) (g ++ Y) = false.
+Proof.
+  intros [|c g] Y H; [discriminate|]. unfold legal_pgarbage in H. apply andb_true_iff in H.
+  destruct H as [H _]. apply negb_true_iff in H. exact H.
+Qed.
+
+Lemma jitem_stops_rest : forall rest, Forall legal_pjblock rest -> item_stops (pjfile_text rest).
+Proof.
+  induction rest as [|b rest IH]; intros Hleg.
+  - exists [], []. repeat split.
+  - inversion Hleg as [|? ? Hb Hrest]; subst. rewrite pjfile_text_cons.
+    destruct b as [[x|cs|cs iw ctxt idl w2 strl]|g]; cbn [pjtext ptext].
+    + destruct (IH Hrest) as [w [Y [E [Hw HY]]]]. exists (x ++ w), Y. rewrite E.
+      split; [rewrite <- app_assoc; reflexivity|]. split; [|exact HY].
+      unfold legal_pjblock in Hb. cbn [legal_pjblockb legal_pblockb] in Hb. apply andb_true_iff in Hb. destruct Hb as [_ Hx].
+      unfold all_ws in *. rewrite forallb_app, Hx, Hw. reflexivity.
+    + unfold legal_pjblock in Hb. cbn [legal_pjblockb legal_pblockb] in Hb. apply andb_true_iff in Hb. destruct Hb as [Hc1 Hc2].
+      exists [], (ctext cs ++ pjfile_text rest). split; [reflexivity|]. split; [reflexivity|].
+      apply head_ctext_p; [destruct cs; discriminate|exact Hc2|reflexivity].
+    + exists [], ((ctext cs ++ iw ++ msg_text ctxt idl w2 strl) ++ pjfile_text rest).
+      split; [reflexivity|]. split; [reflexivity|].
+      unfold legal_pjblock in Hb. cbn [legal_pjblockb legal_pblockb] in Hb.
+      repeat (apply andb_true_iff in Hb; let H := fresh "L" in destruct Hb as [Hb H]).
+      destruct cs as [|c1 cs1].
+      * assert (iw = []) by (destruct iw; [reflexivity|discriminate]). subst iw. cbn [ctext concat map app].
+        destruct (msg_head ctxt idl w2 strl (pjfile_text rest)) as [_ [_ M3]]. exact M3.
+      * rewrite <- app_assoc. apply head_ctext_p; [discriminate|exact Hb|reflexivity].
+    + exists [], (g ++ pjfile_text rest). split; [reflexivity|]. split; [reflexivity|].
+      apply garbage_head. exact Hb.
+Qed.
+
+
+(* what follows a garbage region, read off the next block *)
+Lemma pjunk_after_rest : forall rest, Forall legal_pjblock rest -> pjsep rest = true ->
+  match rest with
+  | [] | PJB (PComment _) :: _ | PJB (PEntity _ _ _ _ _ _) :: _ => true
+  | _ => false
+  end = true ->
+  pjunk_after (pjfile_text rest).
+Proof.
+  intros [|[[x|cs|cs iw ctxt idl w2 strl]|g] rest'] Hleg Hsep Hk; try discriminate.
+  - constructor.
+  - inversion Hleg as [|b' r' Hb Hrest]; subst. unfold legal_pjblock in Hb. cbn [legal_pjblockb legal_pblockb] in Hb.
+    apply andb_true_iff in Hb. destruct Hb as [Hc1 Hc2].
+    assert (Hne : cs <> []) by (destruct cs; [discriminate|discriminate]).
+    rewrite pjfile_text_cons. cbn [pjtext ptext]. constructor; auto.
+    cbn [pjsep] in Hsep. apply andb_true_iff in Hsep. destruct Hsep as [Hnext _].
+    destruct rest' as [|[[x| |]|] rest'']; try discriminate; [reflexivity|].
+    inversion Hrest as [|b' r' Hx _]; subst. unfold legal_pjblock in Hx. cbn [legal_pjblockb legal_pblockb] in Hx.
+    apply andb_true_iff in Hx. destruct Hx as [Hx1 Hx2].
+    rewrite pjfile_text_cons. cbn [pjtext ptext]. unfold hash_head.
+    rewrite head_is_app by (destruct x; [discriminate|discriminate]). apply head_ws_not_35; [|exact Hx2].
+    destruct x; [discriminate|discriminate].
+  - inversion Hleg as [|b' r' Hb Hrest]; subst. unfold legal_pjblock in Hb. cbn [legal_pjblockb legal_pblockb] in Hb.
+    repeat (apply andb_true_iff in Hb; let H := fresh "L" in destruct Hb as [Hb H]).
+    rewrite pjfile_text_cons. cbn [pjtext ptext].
+    destruct cs as [|c1 cs1].
+    + assert (iw = []) by (destruct iw; [reflexivity|discriminate]). subst iw. cbn [ctext concat map app].
+      constructor.
+    + rewrite <- !app_assoc. constructor; [discriminate|exact Hb|]. unfold hash_head.
+      destruct iw as [|d iw'].
+      * cbn [app]. destruct (msg_head ctxt idl w2 strl (pjfile_text rest')) as [_ [M2 _]]. exact M2.
+      * cbn [app head_is]. apply ws_not_35. unfold all_ws in L5. simpl in L5. apply andb_true_iff in L5. apply L5.
+Qed.
+
+Lemma walk_pjents : forall bs, Forall legal_pjblock bs -> pjsep bs = true ->
+  forall a w, all_ws w = true -> pjstmt bs a w.
+Proof.
+  induction bs as [|b rest IH]; intros Hleg Hsep.
+  - apply pjlift_flush; [exact I|reflexivity|].
+    intros a _ fuel Hf. simpl. apply walk_loop_done. rewrite !app_length. simpl. lia.
+  - inversion Hleg as [|b' rest' Hb Hrest]; subst b' rest'.
+    destruct b as [[x|cs|cs iw ctxt idl w2 strl]|g].
+    + (* whitespace: joins what is pending *)
+      intros a w Hw Hlic fuel Hf. simpl in Hsep.
+      unfold legal_pjblock in Hb. cbn [legal_pjblockb legal_pblockb] in Hb. apply andb_true_iff in Hb.
+      destruct Hb as [Hx1 Hx2].
+      assert (Hs : a ++ w ++ pjfile_text (PJB (PBlank x) :: rest) = a ++ (w ++ x) ++ pjfile_text rest).
+      { rewrite pjfile_text_cons. cbn [pjtext ptext]. rewrite <- app_assoc. reflexivity. }
+      simpl pjents. rewrite Hs in *. rewrite <- app_length. apply (IH Hrest Hsep); auto.
+      * unfold all_ws in *. rewrite forallb_app, Hw, Hx2. reflexivity.
+      * rewrite app_length, Nat.add_assoc. exact Hlic.
+    + (* a standalone comment *)
+      unfold legal_pjblock in Hb. cbn [legal_pjblockb legal_pblockb] in Hb. apply andb_true_iff in Hb.
+      destruct Hb as [Hc1 Hc2].
+      assert (Hne : cs <> []) by (destruct cs; [discriminate|discriminate]).
+      simpl in Hsep. apply andb_true_iff in Hsep. destruct Hsep as [Hnext Hsep].
+      apply pjlift_flush; [exact I| rewrite pjfile_text_cons; apply head_ctext_p; auto |].
+      intros a _ fuel Hf. destruct fuel as [|f]; [lia|].
+      rewrite pjfile_text_cons in *. cbn [pjtext ptext] in *. simpl app in *.
+      assert (Hafter : pjfile_text rest = [] \/
+                exists x y, pjfile_text rest = x ++ y /\ x <> [] /\ all_ws x = true /\
+                            2 <= count_char 10%N x).
+      { destruct rest as [|[[x| |]|] rest']; try discriminate; [left; reflexivity|].
+        right. exists x, (pjfile_text rest'). split; [reflexivity|].
+        inversion Hrest as [|b' r' Hx _]; subst. unfold legal_pjblock in Hx. cbn [legal_pjblockb legal_pblockb] in Hx.
+        apply andb_true_iff in Hx. destruct Hx as [Hx1 Hx2].
+        split; [destruct x; discriminate|]. split; [exact Hx2|]. apply Nat.leb_le. exact Hnext. }
+      pose proof (gn_po_comment a cs (pjfile_text rest) Hne Hc2 Hafter) as G.
+      simpl pjents. rewrite !Nat.add_0_r. rewrite <- G. apply walk_step_po.
+      * rewrite !app_length. pose proof (ctext_length_ge cs). destruct cs; [contradiction|].
+        simpl in *. lia.
+      * rewrite G. cbn [mk_comment e_span snd].
+        assert (Hs : a ++ ctext cs ++ pjfile_text rest = (a ++ ctext cs) ++ [] ++ pjfile_text rest)
+          by (rewrite <- app_assoc; reflexivity).
+        pose proof (ctext_length_ge cs) as Hpos.
+        assert (1 <= length (ctext cs)) by (destruct cs; [contradiction|simpl in *; lia]).
+        rewrite Hs, <- app_length. apply (IH Hrest Hsep (a ++ ctext cs) []); [reflexivity| |].
+        -- simpl length. rewrite Nat.add_0_r. apply pjlic_ge2.
+           (* a comment line is at least "#" and its newline *)
+           destruct cs as [|[c0 t0] cs']; [contradiction|]. rewrite app_length, ctext_cons_len. lia.
+        -- rewrite <- Hs. rewrite !app_length in *. lia.
+    + (* a message *)
+      assert (Hb' := Hb). unfold legal_pjblock in Hb'. simpl in Hsep.
+      apply pjlift_flush; [exact I| |].
+      { rewrite pjfile_text_cons. cbn [pjtext ptext].
+        cbn [legal_pjblockb legal_pblockb] in Hb'.
+        repeat (apply andb_true_iff in Hb'; let H := fresh "L" in destruct Hb' as [Hb' H]).
+        destruct cs as [|c1 cs1].
+        - assert (iw = []) by (destruct iw; [reflexivity|discriminate]). subst iw. cbn [ctext concat map app].
+          destruct (msg_head ctxt idl w2 strl (pjfile_text rest)) as [M1 _]. exact M1.
+        - rewrite <- app_assoc. apply head_ctext_p; [discriminate|exact Hb'|reflexivity]. }
+      intros a Hlic fuel Hf. destruct fuel as [|f]; [lia|].
+      assert (Etxt : a ++ [] ++ pjfile_text (PJB (PEntity cs iw ctxt idl w2 strl) :: rest) =
+                     a ++ ctext cs ++ iw ++ msg_text ctxt idl w2 strl ++ pjfile_text rest).
+      { rewrite pjfile_text_cons. cbn [pjtext ptext]. norm_app. reflexivity. }
+      rewrite Etxt in *.
+      assert (Hl : length a < 2 -> contains s_License (ctext cs) = false).
+      { intros Ha. simpl in Hlic. rewrite Nat.add_0_r in Hlic.
+        replace (2 <=? length a) with false in Hlic by (symmetry; apply Nat.leb_gt; exact Ha).
+        apply negb_true_iff in Hlic. exact Hlic. }
+      pose proof (gn_po_entity a cs iw ctxt idl w2 strl (pjfile_text rest) Hb
+                    (jitem_stops_rest rest Hrest) Hl) as G.
+      cbv zeta in G. simpl pjents. rewrite !Nat.add_0_r.
+      rewrite <- G. apply walk_step_po.
+      * rewrite !app_length. unfold msg_text. rewrite !app_length. simpl. lia.
+      * rewrite G. cbn [e_span snd].
+        set (A0 := a ++ ctext cs ++ iw ++ msg_text ctxt idl w2 strl).
+        assert (Hs2 : a ++ ctext cs ++ iw ++ msg_text ctxt idl w2 strl ++ pjfile_text rest
+                      = A0 ++ [] ++ pjfile_text rest) by (unfold A0; norm_app; reflexivity).
+        assert (El : length a + length (ctext cs) + length iw + length (ctxt_text ctxt) + 5 +
+                     length (items_text idl) + length w2 + 6 + length (items_text strl) = length A0).
+        { unfold A0, msg_text. rewrite !app_length. simpl. lia. }
+        rewrite Hs2, El. apply (IH Hrest Hsep A0 []); [reflexivity| |].
+        -- simpl length. rewrite Nat.add_0_r. apply pjlic_ge2. rewrite <- El. lia.
+        -- rewrite Hs2 in Hf. rewrite <- El in *. rewrite !app_length in *. simpl in *. lia.
+    + (* a garbage region: one junk entry, exactly the region *)
+      unfold legal_pjblock in Hb. cbn [legal_pjblockb] in Hb.
+      cbn [pjsep] in Hsep. apply andb_true_iff in Hsep. destruct Hsep as [Hnext Hsep].
+      assert (Hpos : 1 <= length g) by (destruct g; [discriminate|simpl; lia]).
+      apply pjlift_flush; [exact I| |].
+      { rewrite pjfile_text_cons. cbn [pjtext]. apply head_ws_weak. apply garbage_head. exact Hb. }
+      intros a Hlic fuel Hf. destruct fuel as [|f]; [lia|].
+      rewrite pjfile_text_cons in *. cbn [pjtext] in *. cbn [app] in *.
+      pose proof (gn_po_garbage a g (pjfile_text rest) Hb (pjunk_after_rest rest Hrest Hsep Hnext)) as G.
+      cbn [length pjents flush app]. rewrite !Nat.add_0_r. rewrite <- G. apply walk_step_po.
+      * rewrite !app_length. lia.
+      * rewrite G. cbn [mk_junk e_span snd].
+        assert (Hs : a ++ g ++ pjfile_text rest = (a ++ g) ++ [] ++ pjfile_text rest)
+          by (rewrite <- app_assoc; reflexivity).
+        rewrite Hs, <- app_length. apply (IH Hrest Hsep (a ++ g) []); [reflexivity| |].
+        -- cbn [pjlic length] in Hlic. rewrite Nat.add_0_r in *. rewrite app_length. exact Hlic.
+        -- rewrite <- Hs. rewrite !app_length in *. lia.
+Qed.
+
+(* ---- the block theorem with garbage regions ---------------------------------------------------------------- *)
+Theorem blocks_po_junk : forall bs : list pjblock,
+  Forall legal_pjblock bs -> pjadjacent_ok bs ->
+  walk_po (pjfile_text bs) = Ok (pjentries_of bs).
+Proof.
+  intros bs Hleg Hadj. unfold pjadjacent_ok, pjadjacent_okb in Hadj. apply andb_true_iff in Hadj.
+  destruct Hadj as [Hsep Hlic]. unfold walk_po, walk, pjentries_of.
+  apply (walk_pjents bs Hleg Hsep [] [] eq_refl); [exact Hlic|]. simpl. lia.
+Qed.
+Print Assumptions blocks_po_junk.
+
+(* ---- what the entries contain ----------------------------------------------------------------------------- *)
+Fixpoint pjrecords_of (bs : list pjblock) : list C02BlocksPoVal.precord :=
+  match bs with
+  | [] => []
+  | PJB (PEntity cs _ ctxt idl _ strl) :: rest =>
+      (mkpov (C02BlocksPoVal.items_meaning idl)
+             (match ctxt with Some (ci, _) => Some (C02BlocksPoVal.items_meaning ci) | None => None end)
+             (C02BlocksPoVal.items_meaning strl),
+       match cs with [] => None | _ => Some (ctext cs) end) :: pjrecords_of rest
+  | _ :: rest => pjrecords_of rest
+  end.
+Fixpoint pjcomments_of (bs : list pjblock) : list str :=
+  match bs with
+  | [] => []
+  | PJB (PComment cs) :: rest => ctext cs :: pjcomments_of rest
+  | _ :: rest => pjcomments_of rest
+  end.
+Fixpoint pjgarbage_of (bs : list pjblock) : list str :=
+  match bs with
+  | [] => []
+  | PJG g :: rest => g :: pjgarbage_of rest
+  | _ :: rest => pjgarbage_of rest
+  end.
+
+(* for every entity: its evaluated string lists and its attached comment; the comment entries;
+   the texts of the Junk entries *)
+Definition pjviews (s : str) (es : list entry) (bs : list pjblock) : Prop :=
+  map (fun e => (po_value_at s (fst (e_span e)), option_map (C02BlocksPoVal.span_text' s) (e_pre e)))
+      (filter (C02BlocksPoVal.is_kind KEntity) es) =
+    map (fun r => (Ok (fst r), snd r)) (pjrecords_of bs) /\
+  map (fun e => C02BlocksPoVal.span_text' s (e_span e)) (filter (C02BlocksPoVal.is_kind KComment) es) =
+    pjcomments_of bs /\
+  map (fun e => C02BlocksPoVal.span_text' s (e_span e)) (filter (C02BlocksPoVal.is_kind KJunk) es) =
+    pjgarbage_of bs.
+
+Lemma pjents_views : forall bs, Forall legal_pjblock bs -> forall (a w : str),
+  pjviews (a ++ w ++ pjfile_text bs) (pjents (length a) (length w) bs) bs.
+Proof.
+  induction bs as [|b rest IH]; intros Hleg a w; unfold pjviews.
+  - simpl pjents. rewrite !C02BlocksPoVal.flush_no by discriminate. repeat split.
+  - inversion Hleg as [|b' rest' Hb Hrest]; subst b' rest'. specialize (IH Hrest).
+    set (s := a ++ w ++ pjfile_text (b :: rest)).
+    destruct b as [[x|cs|cs iw ctxt idl w2 strl]|g].
+    + assert (Hs : s = a ++ (w ++ x) ++ pjfile_text rest).
+      { unfold s. rewrite pjfile_text_cons. cbn [pjtext ptext]. rewrite <- app_assoc. reflexivity. }
+      simpl pjents. rewrite <- app_length, Hs. apply IH.
+    + set (A0 := a ++ w ++ ctext cs).
+      assert (Hs : s = A0 ++ [] ++ pjfile_text rest).
+      { unfold s, A0. rewrite pjfile_text_cons. cbn [pjtext ptext]. norm_app. reflexivity. }
+      assert (El : length a + length w + length (ctext cs) = length A0)
+        by (unfold A0; rewrite !app_length; lia).
+      destruct (IH A0 []) as [I1 [I2 I3]]. rewrite <- Hs in I1, I2, I3.
+      change (length (@nil N)) with 0 in I1, I2, I3.
+      simpl pjents. rewrite !filter_app, !C02BlocksPoVal.flush_no by discriminate. rewrite El.
+      cbn [app filter C02BlocksPoVal.is_kind mk_comment e_kind map e_span]. rewrite I1, I2, I3.
+      split; [reflexivity|split; [|reflexivity]]. cbn [pjcomments_of]. f_equal.
+      assert (Hs' : s = (a ++ w) ++ ctext cs ++ pjfile_text rest)
+        by (rewrite Hs; unfold A0; norm_app; reflexivity).
+      unfold C02BlocksPoVal.span_text'. cbn [fst snd]. rewrite <- El, <- app_length, Hs'. apply slice_mid.
+    + assert (Hb' := Hb). unfold legal_pjblock in Hb'. cbn [legal_pjblockb legal_pblockb] in Hb'.
+      repeat (apply andb_true_iff in Hb'; let H := fresh "L" in destruct Hb' as [Hb' H]).
+      set (K0 := a ++ w ++ ctext cs ++ iw).
+      set (A0 := K0 ++ msg_text ctxt idl w2 strl).
+      assert (Hs : s = A0 ++ [] ++ pjfile_text rest).
+      { unfold s, A0, K0. rewrite pjfile_text_cons. cbn [pjtext ptext]. norm_app. reflexivity. }
+      assert (Ek : length a + length w + length (ctext cs) + length iw = length K0)
+        by (unfold K0; rewrite !app_length; lia).
+      assert (Ee : length K0 + length (ctxt_text ctxt) + 5 + length (items_text idl) + length w2 + 6 +
+                   length (items_text strl) = length A0).
+      { unfold A0, msg_text. rewrite !app_length. simpl. lia. }
+      destruct (IH A0 []) as [I1 [I2 I3]]. rewrite <- Hs in I1, I2, I3.
+      change (length (@nil N)) with 0 in I1, I2, I3.
+      simpl pjents. rewrite !filter_app, !C02BlocksPoVal.flush_no by discriminate. rewrite Ek, Ee.
+      cbn [app filter C02BlocksPoVal.is_kind e_kind map e_span e_pre fst]. rewrite I1, I2, I3.
+      split; [|split; reflexivity]. cbn [pjrecords_of map fst snd]. f_equal. f_equal.
+      * assert (Hs' : s = K0 ++ msg_text ctxt idl w2 strl ++ pjfile_text rest)
+          by (rewrite Hs; unfold A0; norm_app; reflexivity).
+        rewrite Hs'. apply C02BlocksPoVal.po_value_ok; auto. apply jitem_stops_rest. exact Hrest.
+      * destruct cs as [|c1 cs1]; [reflexivity|]. cbn [option_map]. f_equal.
+        unfold C02BlocksPoVal.span_text'. cbn [fst snd].
+        assert (Hs' : s = (a ++ w) ++ ctext (c1 :: cs1) ++ iw ++ msg_text ctxt idl w2 strl ++ pjfile_text rest)
+          by (rewrite Hs; unfold A0, K0; norm_app; reflexivity).
+        rewrite Hs', <- app_length. apply slice_mid.
+    + set (A0 := a ++ w ++ g).
+      assert (Hs : s = A0 ++ [] ++ pjfile_text rest).
+      { unfold s, A0. rewrite pjfile_text_cons. cbn [pjtext]. norm_app. reflexivity. }
+      assert (El : length a + length w + length g = length A0)
+        by (unfold A0; rewrite !app_length; lia).
+      destruct (IH A0 []) as [I1 [I2 I3]]. rewrite <- Hs in I1, I2, I3.
+      change (length (@nil N)) with 0 in I1, I2, I3.
+      simpl pjents. rewrite !filter_app, !C02BlocksPoVal.flush_no by discriminate. rewrite El.
+      cbn [app filter C02BlocksPoVal.is_kind mk_junk e_kind map e_span]. rewrite I1, I2, I3.
+      split; [reflexivity|split; [reflexivity|]]. cbn [pjgarbage_of]. f_equal.
+      assert (Hs' : s = (a ++ w) ++ g ++ pjfile_text rest)
+        by (rewrite Hs; unfold A0; norm_app; reflexivity).
+      unfold C02BlocksPoVal.span_text'. cbn [fst snd]. rewrite <- El, <- app_length, Hs'. apply slice_mid.
+Qed.
+
+(* with garbage regions: every message is recovered with the values of its string lists and its
+   attached comment, every standalone comment is a comment entry, and the Junk entries are, one
+   for one and in order, exactly the garbage regions *)
+Theorem roundtrip_po_junk : forall bs : list pjblock,
+  Forall legal_pjblock bs -> pjadjacent_ok bs ->
+  exists es, walk_po (pjfile_text bs) = Ok es /\ pjviews (pjfile_text bs) es bs.
+Proof.
+  intros bs Hleg Hadj. exists (pjentries_of bs). split; [apply blocks_po_junk; auto|].
+  exact (pjents_views bs Hleg [] []).
+Qed.
+Print Assumptions roundtrip_po_junk.
